@@ -62,6 +62,9 @@ def main():
     ap.add_argument('--tier', default='quick')
     ap.add_argument('--runs', type=int)
     ap.add_argument('--every', action='store_true', help='run all seven checks, not only the expected ones')
+    ap.add_argument('--json', help='write results to this file')
+    ap.add_argument('--par', type=int, default=1, help='patches handled concurrently')
+    ap.add_argument('--only', help='substring filter on patch paths')
     args = ap.parse_args()
     items = []
     ALL = ['C04', 'C05', 'C06', 'C07', 'C15', 'C16', 'C19']
@@ -79,7 +82,7 @@ def main():
             if n.startswith('revert-'):
                 items.append((p, [REV[n[7:9]]]))
             elif n.startswith('equiv-'):
-                items.append((p, [n[6:9].upper()]))
+                items.append((p, ALL))       # a behaviour-preserving rewrite must leave every check green
                 expect_green.add(p)
             elif n.startswith('undecided-'):
                 items.append((p, [n[10:13].upper()]))
@@ -100,10 +103,16 @@ def main():
         else:
             items.append((it, ALL))
     bad = 0
-    for patch, props in items:
-        if args.every:
-            props = ALL
-        r = run_one(patch, props, args.tier, args.runs, args.tests)
+    results = []
+    if args.only:
+        items = [(p_, q_) for p_, q_ in items if args.only in p_]
+    import concurrent.futures
+    if args.every:
+        items = [(p_, ALL) for p_, q_ in items]
+    with concurrent.futures.ThreadPoolExecutor(max_workers=max(1, args.par)) as ex:
+        futs = [ex.submit(run_one, p_, q_, args.tier, args.runs, args.tests) for p_, q_ in items]
+    for (patch, props), fut in zip(items, futs):
+        r = fut.result()
         caught = [p for p, c in r.get('checks', {}).items() if c['exit'] == 1]
         broken = [p for p, c in r.get('checks', {}).items() if c['exit'] not in (0, 1)]
         status = 'CAUGHT' if caught else 'MISSED'
@@ -115,6 +124,9 @@ def main():
             status = status.lower()
         if status in ('MISSED', 'ERROR', 'FALSE-ALARM'):
             bad += 1
+        results.append({'patch': os.path.relpath(patch, VERIF), 'status': status, 'expected': props, 'caught_by': caught,
+                        'classes': {p: c['classes'][:6] for p, c in r.get('checks', {}).items() if c['classes']},
+                        'baseline_tests_pass': r.get('baseline_tests_pass')})
         print('%-11s %s caught_by=%s harness_error=%s %s' % (status, os.path.relpath(patch, VERIF), caught, broken,
                                                           ('tests_pass=%s' % r.get('baseline_tests_pass')) if args.tests else ''))
         for p, c in r.get('checks', {}).items():
@@ -125,6 +137,9 @@ def main():
         if 'error' in r:
             print('          ' + r['error'])
         sys.stdout.flush()
+    if args.json:
+        with open(args.json, 'w') as f:
+            json.dump(results, f, indent=1, sort_keys=True)
     return 1 if bad else 0
 
 
